@@ -5,6 +5,9 @@
 (*   MC_TermCache_cell_dump.cfg / MC_TermCache_memo_dump.cfg   quick models with the edge dump  *)
 (*   MC_TermCache_all.cfg    both groups together on a smaller terminal family (thorough)       *)
 (*   MC_TermCache_var.cfg    seeded regressions of the model (VARIANT from the environment)     *)
+(*   MC_TermCache_faultq.cfg / _faultx.cfg   cell operations with failing look-ups (Faults # {}): *)
+(*                           2 sizes x 2 pixel sizes (quick) / the MC_TermCache.cfg family (thorough) *)
+(*   MC_TermCache_cellF_dump.cfg   quick model with faults of both kinds and the edge dump      *)
 (* The invariants read `out` (the value just returned).  They are decided by the configurations *)
 (* WITHOUT a VIEW (cell, memo, all, var), where the last operation is part of the state         *)
 (* identity; the *_dump configurations use VIEW View only to print each edge of the             *)
@@ -22,9 +25,23 @@ EnvVariant == IF "VARIANT" \in DOMAIN IOEnv THEN IOEnv.VARIANT ELSE "code"
 
 \* what the property allows the operation to return (judged in TLA+, compared by the replay)
 Allowed ==
-  IF out'.op = "GetCellSize" THEN AllowedCells(basis', env', swap', queries')
+  IF out'.fault # "" THEN {}   \* the exception propagated: nothing was returned
+  ELSE IF out'.op = "GetCellSize" THEN AllowedCells(basis', env', swap', queries')
   ELSE IF out'.op = "GetRatio" /\ cr' = Nil THEN AllowedRatios(basis', env', swap', queries')
+  ELSE IF out'.op = "SetRatio" /\ out'.arg = <<"FIXED">> /\ ~out'.err THEN AllowedRatios(basis', env', swap', queries')
   ELSE {}
 
-Dump == PrintT(<<"EDGE", ToJson([from |-> View, to |-> View', op |-> out', allowed |-> Allowed, lvl |-> TLCGet("level")])>>)
+\* the snapshot set_cell_ratio(FIXED) has taken (observed by the replay right after the call), else <<>>
+Fixed == IF out'.op = "SetRatio" /\ out'.arg = <<"FIXED">> /\ ~out'.err THEN cr' ELSE <<>>
+
+\* exception statuses the property admits for this operation: the one-time support check of set_cell_ratio(FIXED |
+\* DYNAMIC) may refuse (TermImageError) iff the cell size may be undetermined, accept iff it may be determined
+ErrOK ==
+  IF out'.op = "SetRatio" /\ Len(out'.arg) = 1 /\ out'.fault = "" /\ isSup = "unknown"
+    THEN LET cells == AllowedCells(basis', env', swap', queries') IN
+         {b \in BOOLEAN : IF b THEN None \in cells ELSE cells # {None}}
+    ELSE {out'.err}
+
+Dump == PrintT(<<"EDGE", ToJson([from |-> View, to |-> View', op |-> out', allowed |-> Allowed, fixed |-> Fixed, errok |-> ErrOK,
+                                 lvl |-> TLCGet("level")])>>)
 =============================================================================
